@@ -255,6 +255,49 @@ func handle(c *core.Check, st core.State, varsOnly bool) {
 		}
 	}
 
+	// for_each with KNOWN length but an unknown element: still one block per element (the first
+	// sentence of the property applies: the written-out body has as many blocks), only the parts
+	// that depend on the unknown element may be unknown
+	for _, x := range forEachVars(items) {
+		if varsOnly || d1.HasErrors() {
+			break
+		}
+		sc := Scope()
+		orig := sc[x]
+		if !(orig.Type().IsListType() || orig.Type().IsTupleType()) || orig.LengthInt() == 0 {
+			continue
+		}
+		els := orig.AsValueSlice()
+		if !els[0].Type().IsPrimitiveType() {
+			continue // an unknown nested collection makes the nested for_each itself unknown
+		}
+		els[0] = cty.UnknownVal(els[0].Type())
+		if orig.Type().IsListType() {
+			sc[x] = cty.ListVal(els)
+		} else {
+			sc[x] = cty.TupleVal(els)
+		}
+		pctx := &hcl.EvalContext{Variables: sc}
+		var pv cty.Value
+		var pd hcl.Diagnostics
+		c.Count("evaluations", 1)
+		if rec, p := core.Guard(func() { pv, pd = hcldec.Decode(dynblock.Expand(df.Body, pctx), spec, pctx) }); p {
+			c.Violation("panic/partly-unknown-for_each", fmt.Sprintf("%s with the first element of %s unknown: panicked: %v", desc, x, rec), vec)
+			return
+		}
+		if pd.HasErrors() {
+			continue
+		}
+		if m := c05.Approx(pv, v1, "result"); m != "" {
+			c.Violation("partly-unknown-for_each/unsound", fmt.Sprintf("%s with the first element of %s unknown: result %s does not approximate %s: %s", desc, x, e1.Describe(pv), e1.Describe(v1), m), vec)
+			return
+		}
+		if m := sameShape(pv, v1, "result"); m != "" {
+			c.Violation("partly-unknown-for_each/shape", fmt.Sprintf("%s with the first element of %s unknown (its length is known): result %s does not have one block per element like %s: %s", desc, x, e1.Describe(pv), e1.Describe(v1), m), vec)
+			return
+		}
+	}
+
 	// the variables reported for expansion / decoding are sufficient
 	if hasDyn {
 		var roots []string
@@ -330,4 +373,57 @@ func handle(c *core.Check, st core.State, varsOnly bool) {
 			c.Sample(map[string]any{"spec": sn.String(), "dynamic_source": dynSrc, "written_out": outSrc})
 		}
 	}
+}
+
+// sameShape: wherever the concrete result is a tuple, list, map or object, the result computed with
+// an unknown ELEMENT (known length) must be known and have the same length / keys; primitive leaves
+// and sets may be unknown.
+func sameShape(u, c cty.Value, path string) string {
+	u, _ = u.Unmark()
+	c, _ = c.Unmark()
+	ct := c.Type()
+	if c.IsNull() || !c.IsKnown() {
+		return ""
+	}
+	if !(ct.IsTupleType() || ct.IsListType() || ct.IsMapType() || ct.IsObjectType()) {
+		return ""
+	}
+	if !u.IsKnown() {
+		return path + " is unknown although the number of generated blocks is known"
+	}
+	if u.IsNull() {
+		return path + " is null"
+	}
+	ut := u.Type()
+	if !(ut.IsTupleType() || ut.IsListType() || ut.IsMapType() || ut.IsObjectType()) {
+		return path + " has a different kind"
+	}
+	if ut.IsObjectType() != ct.IsObjectType() {
+		return ""
+	}
+	if u.LengthInt() != c.LengthInt() {
+		return fmt.Sprintf("%s has %d elements instead of %d", path, u.LengthInt(), c.LengthInt())
+	}
+	if ct.IsObjectType() {
+		for name := range ct.AttributeTypes() {
+			if !ut.HasAttribute(name) {
+				return path + " lacks attribute " + name
+			}
+			if m := sameShape(u.GetAttr(name), c.GetAttr(name), path+"."+name); m != "" {
+				return m
+			}
+		}
+		return ""
+	}
+	it := c.ElementIterator()
+	for it.Next() {
+		k, cv := it.Element()
+		if !u.HasIndex(k).True() {
+			return fmt.Sprintf("%s lacks key %s", path, e1.Describe(k))
+		}
+		if m := sameShape(u.Index(k), cv, path+"["+e1.Describe(k)+"]"); m != "" {
+			return m
+		}
+	}
+	return ""
 }
